@@ -87,9 +87,10 @@ def corpus_specs(prop):
         if rules and "seeded/%s/patch.diff" % name in base:
             out.append(dict(id="seed:" + name, kind="patch", patch=pp, expect=rules, base=base["seeded/%s/patch.diff" % name]))
     nd = os.path.join(VERIF, "neutral")
-    whole = prop in ("C18", "C20")          # whole-program properties read every unit: every set is material for them
+    # (the whole-program properties C18 / C20 read every unit, so every set is material for them too; that full cross run is
+    # tools/scratch_matrix.py - here each property replays the sets written against it, which keeps the thorough tier bounded)
     for s_ in sorted(os.listdir(nd)) if os.path.isdir(nd) else []:
-        if not (whole or s_[:3] == prop):
+        if s_[:3] != prop:
             continue
         for f in sorted(os.listdir(os.path.join(nd, s_))):
             if f.endswith(".diff") and "neutral/%s/%s" % (s_, f) in base:
@@ -181,8 +182,17 @@ def run(prop, mod, specs=None, only=None):
         return res
     jobs = [(prop, mod.__name__, s) for s in specs]
     os.environ.setdefault("PLINT_SCRATCH_ID", "st%d" % os.getpid())      # one private scratch fact cache for this run's workers
-    with ProcessPoolExecutor(max_workers=min(16, len(jobs))) as ex:
-        outs = list(ex.map(_one, jobs))
+    nw = max(1, min(int(os.environ.get("PLINT_SELFTEST_WORKERS", "8")), len(jobs)))
+    outs = [None] * len(jobs)
+    try:
+        with ProcessPoolExecutor(max_workers=nw) as ex:
+            for k, r in enumerate(ex.map(_one, jobs)):
+                outs[k] = r
+    except Exception:
+        # a worker died (memory pressure when many checks run side by side): finish the remaining cases one by one in this process
+        for k, j in enumerate(jobs):
+            if outs[k] is None:
+                outs[k] = _one(j)
     for spec, (sid, status, msg) in zip(specs, outs):
         if spec.get("expect") is None:
             res["neutral"] += 1
